@@ -554,6 +554,13 @@ type accountsD struct {
 	w     *world
 	mu    sync.Mutex
 	calls []uint64 // epochs asked for
+	fail  bool
+}
+
+func (a *accountsD) setFail(f bool) {
+	a.mu.Lock()
+	a.fail = f
+	a.mu.Unlock()
 }
 
 func (a *accountsD) active(epoch uint64) map[phase0.ValidatorIndex]e2wtypes.Account {
@@ -569,12 +576,19 @@ func (a *accountsD) active(epoch uint64) map[phase0.ValidatorIndex]e2wtypes.Acco
 func (a *accountsD) ValidatingAccountsForEpoch(_ context.Context, epoch phase0.Epoch) (map[phase0.ValidatorIndex]e2wtypes.Account, error) {
 	a.mu.Lock()
 	a.calls = append(a.calls, uint64(epoch))
+	fail := a.fail
 	a.mu.Unlock()
+	if fail {
+		return nil, errors.New("scripted accounts provider failure")
+	}
 	return a.active(uint64(epoch)), nil
 }
 
 func (a *accountsD) ValidatingAccountsForEpochByIndex(ctx context.Context, epoch phase0.Epoch, indices []phase0.ValidatorIndex) (map[phase0.ValidatorIndex]e2wtypes.Account, error) {
-	all, _ := a.ValidatingAccountsForEpoch(ctx, epoch)
+	all, err := a.ValidatingAccountsForEpoch(ctx, epoch)
+	if err != nil {
+		return nil, err
+	}
 	res := map[phase0.ValidatorIndex]e2wtypes.Account{}
 	for _, i := range indices {
 		if acc, ok := all[i]; ok {
